@@ -11,6 +11,7 @@ KEYS = [
     "doctrans.pure_utils:update_d",
     "doctrans.docstring_utils:emit_param_str",
     "doctrans.emit:docstring",
+    "doctrans.docstring_parsers:_parse_phase_rest",
 ]
 
 
